@@ -153,12 +153,18 @@ def bounded(ctx):
                     # record, taken after that record was typed and assembled, given the new sequence)
                     made = ("fresh", "deepcopy", "copy")[(j + newlen + chain_len) % 3]
                     nseq = Seq(ba.rotate(ntext, rng.randrange(len(ntext))))
+                    # ... and so is what is annotated on it: every kind of feature table (joins, either strand, past-the-end and
+                    # zero-length locations, approximate boundaries), anywhere on the plasmid
+                    from bounded import common as bc_
+                    tabs_ = bc_.feature_tables(len(nseq))
+                    feats_ = bc_.build_features(tabs_[(j * 7 + newlen + chain_len * 3) % len(tabs_)])
                     if made == "fresh":
-                        repl = Mod(CircularRecord(nseq, id=rid))
+                        repl = Mod(CircularRecord(nseq, id=rid, features=feats_))
                     else:
                         import copy as _copy
                         rec_ = (_copy.deepcopy if made == "deepcopy" else _copy.copy)(mods[j].record)
                         rec_.seq = nseq
+                        rec_.features = feats_
                         rec_.id = rid
                         repl = Mod(rec_)
                     ms = list(mods)
